@@ -13,10 +13,12 @@ func init() {
 }
 
 const pagePlaceholder = `import GoUtils.Model.Page
+import GoUtils.Model.PageStream
 namespace GoUtils.Generated.Page
 open GoUtils.Page
 def ok : Bool := false
 def ctors : List CtorFacts := []
+def stream : GoUtils.PageStream.SFacts := default
 end GoUtils.Generated.Page
 `
 
@@ -46,9 +48,16 @@ func extractPage(root string) (string, map[string]any, error) {
 		facts[n] = map[string]any{"propagatesInitError": ok, "why": why}
 		items = append(items, fmt.Sprintf("{ name := %s, propagatesInitError := %s }", leanStr(n), leanBool(ok)))
 	}
+	sf, err := streamLoopFacts(p)
+	if err != nil {
+		return "", nil, err
+	}
+	facts["streamHasNextLoop"] = sf
 	var b strings.Builder
-	b.WriteString("import GoUtils.Model.Page\nnamespace GoUtils.Generated.Page\nopen GoUtils.Page\ndef ok : Bool := true\n")
+	b.WriteString("import GoUtils.Model.Page\nimport GoUtils.Model.PageStream\nnamespace GoUtils.Generated.Page\nopen GoUtils.Page\ndef ok : Bool := true\n")
 	b.WriteString("def ctors : List CtorFacts := [\n  " + strings.Join(items, ",\n  ") + "]\n")
+	b.WriteString(fmt.Sprintf("def stream : GoUtils.PageStream.SFacts := { refreshOnItem := %s, refreshWhileNotDry := %s, contextTested := %s }\n",
+		leanBool(sf["refreshOnItem"]), leanBool(sf["refreshWhileNotDry"]), leanBool(sf["contextTested"])))
 	b.WriteString("end GoUtils.Generated.Page\n")
 	return b.String(), facts, nil
 }
@@ -110,4 +119,68 @@ func ctorPropagates(p *pkg, fd *ast.FuncDecl) (bool, string, error) {
 		}
 	}
 	return true, "every inner error reaches the named result " + R, nil
+}
+
+
+// streamLoopFacts recognises the loop of (*AbstractStreamPaginator).HasNext statement by statement; any
+// statement outside the known variants is an error (the area then falls back to its placeholder).
+func streamLoopFacts(p *pkg) (map[string]bool, error) {
+	fd := p.method("AbstractStreamPaginator", "HasNext")
+	if fd == nil {
+		return nil, fmt.Errorf("(*AbstractStreamPaginator).HasNext not found")
+	}
+	if len(fd.Body.List) != 1 {
+		return nil, fmt.Errorf("stream HasNext: %d top-level statements, want one loop", len(fd.Body.List))
+	}
+	loop, ok := fd.Body.List[0].(*ast.ForStmt)
+	if !ok || loop.Init != nil || loop.Cond != nil || loop.Post != nil {
+		return nil, fmt.Errorf("stream HasNext: not a bare `for { … }` loop")
+	}
+	norm := func(n ast.Node) string { return strings.Join(strings.Fields(p.src(n)), " ") }
+	res := map[string]bool{"refreshOnItem": false, "refreshWhileNotDry": false, "contextTested": false}
+	seenItem, seenDry, seenFuture := false, false, false
+	plain := map[string]bool{
+		"page, err := s.AbstractPaginator.FetchCurrentPage()": true,
+		"if err != nil { return false }":                      true,
+		"stream, ok := page.(IStaticPageStream)":              true,
+		"if !ok { return false }":                             true,
+		"if !stream.HasFuture() { return false }":             true,
+		"err = s.AbstractPaginator.SetCurrentPage(future)":    true,
+		"parallelisation.SleepWithContext(s.GetContext(), s.backoff)": true,
+	}
+	for _, st := range loop.Body.List {
+		src := norm(st)
+		switch {
+		case src == "if s.AbstractPaginator.HasNext() { s.timeReachLast.Store(time.Now()) return true }":
+			seenItem, res["refreshOnItem"] = true, true
+		case src == "if s.AbstractPaginator.HasNext() { return true }":
+			seenItem = true
+		case src == "if parallelisation.DetermineContextError(s.GetContext()) != nil { return false }":
+			if !seenFuture {
+				res["contextTested"] = true
+			}
+		case src == "if s.IsRunningDry() { if time.Since(s.timeReachLast.Load()) >= s.timeOut { return false } } else { s.timeReachLast.Store(time.Now()) }":
+			seenDry, res["refreshWhileNotDry"] = true, true
+		case src == "if s.IsRunningDry() { if time.Since(s.timeReachLast.Load()) >= s.timeOut { return false } }",
+			src == "if s.IsRunningDry() && time.Since(s.timeReachLast.Load()) >= s.timeOut { return false }":
+			seenDry = true
+		case src == "future, err := s.FetchFuturePage(s.GetContext(), stream)":
+			if !seenItem || !seenDry {
+				return nil, fmt.Errorf("stream HasNext: the future page is fetched before the item / grace-period tests")
+			}
+			seenFuture = true
+		case plain[src]:
+		default:
+			return nil, fmt.Errorf("stream HasNext: statement not recognised: %s", src)
+		}
+	}
+	if !seenItem || !seenDry || !seenFuture {
+		return nil, fmt.Errorf("stream HasNext: item test / grace-period test / future fetch not all found")
+	}
+	du := p.method("AbstractStreamPaginator", "DryUp")
+	ird := p.method("AbstractStreamPaginator", "IsRunningDry")
+	if du == nil || ird == nil || norm(du.Body) != "{ s.runningOut.Store(true) return nil }" || norm(ird.Body) != "{ return s.runningOut.Load() }" {
+		return nil, fmt.Errorf("DryUp / IsRunningDry not recognised")
+	}
+	return res, nil
 }
